@@ -908,7 +908,10 @@ class ServermapUpdater:
          prefix,
          offsets) = verinfo
 
-        offsets_tuple = tuple( [(key,value) for key,value in offsets.items()] )
+        # sorted, like the write proxies' _get_offsets_tuple: a publisher
+        # records its own shares with the writer's tuple, and the same
+        # version must not look like a second one when we survey it later
+        offsets_tuple = tuple(sorted(offsets.items()))
 
         verinfo = (seqnum,
                    root_hash,
